@@ -68,6 +68,7 @@ def _kinematics(ctx, body, t, q, u, u_dot, B, label, has_q=True):
     if not has_q:
         return
     # ---- partial derivatives (D-oracle) ----
+    hs = float(np.abs(body.B_Theta_C).max()) if hasattr(body, "B_Theta_C") else 1.0
     D = [
         ("r_OP_q", lambda: body.r_OP_q(t, q, **kw), lambda x: body.r_OP(t, x, **kw), q),
         ("v_P_q", lambda: body.v_P_q(t, q, u, **kw), lambda x: body.v_P(t, x, u, **kw), q),
@@ -85,7 +86,9 @@ def _kinematics(ctx, body, t, q, u, u_dot, B, label, has_q=True):
         ("B_kappa_R_u", lambda: body.B_kappa_R_u(t, q, u), lambda x: body.B_kappa_R(t, q, x), u),
         ("q_dot_q", lambda: body.q_dot_q(t, q, u), lambda x: body.q_dot(t, x, u), q),
         ("q_dot_u", lambda: body.q_dot_u(t, q), lambda x: body.q_dot(t, q, x), u),
-        ("h_u", lambda: body.h_u(t, q, u), lambda x: body.h(t, q, x), u),
+        # (gyroscopic forces scale with the inertia tensor: compared in units of max|Theta|, so that a body given in
+        #  millimetre-gram or tonne-kilometre units is judged like one of order one)
+        ("h_u", lambda: body.h_u(t, q, u) / hs, lambda x: body.h(t, q, x) / hs, u),
         ("g_S_q", lambda: body.g_S_q(t, q), lambda x: body.g_S(t, x), q),
     ]
     for name, claimed, f, x in D:
@@ -128,6 +131,11 @@ def run_case(spec, ctx):
     if kind in ("rigid", "meshed"):
         mass = float(loguniform(rng, 1e-2, 1e2))
         Theta = gen.random_spd(rng)
+        if kind == "rigid" and rng.random() < 0.3:
+            # other unit systems: the same body with mass and inertia scaled by 1e-12 .. 1e9
+            sc_units = float(10.0 ** rng.uniform(-12, -3)) if rng.random() < 0.6 else float(10.0 ** rng.uniform(3, 9))
+            mass, Theta = mass * sc_units, Theta * sc_units
+            ctx.cls("rigid:inertia_scale:tiny" if sc_units < 1 else "rigid:inertia_scale:huge")
         q0, u0, _, _ = gen.rigid_body_state(rng, unit=True)
         label = "RigidBody"
         with gen.quiet():
